@@ -274,6 +274,14 @@ def main():
     okp2, _, outp2 = common.prove(chk, "C11", ["Scc.PMoves.ProofsSubst", "Scc.Props.C11Counts", "Scc.Props.C11Balance"], THEOREMS_COUNTS)
     okp = okp and okp2
     outp = outp + outp2
+    # translator tie: the reference-count arms of substitution.rs, regenerated from the Rust text on every run,
+    # against the model's updateReferenceCount / codeWeakeningContraction (Props/Tables.lean T_subst_refcount)
+    import regen
+    _, terr = regen.regen(["tables"])
+    chk.obligation("regen:tables", "translator", not terr, "; ".join("%s: %s" % kv for kv in terr.items())[-300:])
+    okt, _, outt = common.prove(chk, "C11", regen.TABLE_MODULES, regen.TABLE_THEOREMS["C11"])
+    okp = okp and okt and not terr
+    outp = outp + outt + "".join(terr.values())
     found = False
     if ok_h and okm:
         h = common.harness()
